@@ -133,6 +133,26 @@ theorem C13_linearizable (now : Nat) (sched : List Nat) (progs : List (List Op))
   simp only [List.length_map, List.length_range', beq_self_eq_true, Bool.true_and]
   exact lin_sched now sched FMap.empty TTLStore.empty progs _ (R_refl _ _) hc (Nat.le_refl _)
 
+/-- The storage calls exercised on the Redis backend (`red` cases of the harness). -/
+def redisOps : List String :=
+  ["Set", "Get", "Delete", "Exists", "SetNX", "CompareAndSwap", "SetExpiration", "GetExpiration",
+   "SetList", "GetList", "AppendToList", "RemoveFromList", "SetHash", "GetHash", "GetAllHash", "DeleteHash",
+   "Incr", "IncrBy"]
+
+/-- **Repository call sites (T1)**: every storage call made by the generic repository, the
+storage-based lock and the cleanup manager in the current source is one of the calls the Redis
+correspondence exercises. A repository starting to use another storage call breaks this theorem. -/
+theorem repo_call_sites :
+    (List.all [Gen.Skel.Repo_Lock_Acquire, Gen.Skel.Repo_Lock_Release, Gen.Skel.Repo_Lock_RenewLock,
+      Gen.Skel.Repo_Lock_IsLocked, Gen.Skel.Repo_Cleanup_Register, Gen.Skel.Repo_Cleanup_Acquire,
+      Gen.Skel.Repo_Cleanup_Complete, Gen.Skel.Repo_Generic_Save, Gen.Skel.Repo_Generic_Create,
+      Gen.Skel.Repo_Generic_Update, Gen.Skel.Repo_Generic_Get, Gen.Skel.Repo_Generic_Delete,
+      Gen.Skel.Repo_Generic_List, Gen.Skel.Repo_Generic_AddToList, Gen.Skel.Repo_Generic_RemoveFromList]
+      (fun sk => sk.all (fun c => redisOps.contains c))) = true ∧
+    Gen.Skel.Repo_Lock_Acquire = ["SetNX"] ∧ Gen.Skel.Repo_Lock_RenewLock = ["Get", "CompareAndSwap"] ∧
+    Gen.Skel.Repo_Generic_List = ["GetList"] ∧ Gen.Skel.Repo_Generic_AddToList = ["AppendToList"] := by
+  decide +kernel
+
 /-! ## Findings -/
 
 /-- Known finding `redis-hash-int-float` (not repaired): an int64 hash member written through the
